@@ -51,8 +51,9 @@ Accepts(D) ==
   /\ \A i \in 1..Len(V) : ChainOk(V, V[i])
 
 \* the meaning of an accepted declaration, as a Schema
-PartOf(V, p) == IF p.k = "name" THEN [k |-> "id", id |-> ByName(V, p.name).id, min |-> 0, max |-> 0]
-                ELSE [k |-> "glob", id |-> <<>>, min |-> IF p.min < 0 THEN 0 ELSE p.min, max |-> p.max]
+\* mset: the declaration spells out a minimum - "(0-2)" and "(-2)" mean the same, but the generated table reports what was written
+PartOf(V, p) == IF p.k = "name" THEN [k |-> "id", id |-> ByName(V, p.name).id, min |-> 0, max |-> 0, mset |-> FALSE]
+                ELSE [k |-> "glob", id |-> <<>>, min |-> IF p.min < 0 THEN 0 ELSE p.min, max |-> p.max, mset |-> p.min >= 0]
 Table(D) == LET V == All(D) IN
   [i \in 1..Len(V) |-> [id |-> V[i].id, ty |-> TyName(V[i].ty), path |-> [k \in 1..Len(V[i].path) |-> PartOf(V, V[i].path[k])]]]
 =============================================================================
